@@ -35,7 +35,7 @@ def main():
     names_pool = ['a', 'b', 'c', 'x y', 'f-1', 'a AND b', 'b AND c', 'é', '0']
     n_cases = 120 if quick else 1500
     for case in range(n_cases):
-        k = int(rng.integers(1, 7))
+        k = 0 if case % 12 == 5 else int(rng.integers(1, 7))       # k == 0: the label is the only column (its pair with itself is requested)
         cols = list(rng.choice(names_pool, size=min(k, len(names_pool)), replace=False))
         mr3 = bool(rng.integers(0, 2))
         if mr3 and len(cols) >= 2 and rng.random() < 0.7:
@@ -124,7 +124,7 @@ def main():
                        f'missing {sorted(map(sorted, exp2 - got2))[:6]} extra {sorted(map(sorted, got2 - exp2))[:6]}')
     h.bounded_note('exact pair sets / mirroring / cap on the real get_combinations_from_columns and mixed_rank_graph '
                    '(in-process pool), names with spaces, dashes, " AND ", unicode; label anywhere',
-                   f'{n_cases} random configurations, 1..7 columns', h.evaluations)
+                   f'{n_cases} random configurations, 1..8 columns (label-only frames included)', h.evaluations)
     return h.finish()
 
 
